@@ -2,6 +2,7 @@ package sim
 
 import (
 	"fmt"
+	"strings"
 	"runtime"
 	"sort"
 )
@@ -50,6 +51,37 @@ func cloneTree(v any) any {
 	return v
 }
 
+// normalizeSig moves the effective signature settings of deb/rpm/apk to the
+// top-level format block: fields given in overrides.<f>.<f>.signature win
+// (that is what Config.Get does), and the override's signature block is
+// removed. Variants derived from a configuration are patched after this, so a
+// patch is effective wherever the original kept its signature settings.
+func normalizeSig(m map[string]any) {
+	ov, _ := m["overrides"].(map[string]any)
+	for _, f := range []string{"deb", "rpm", "apk"} {
+		fo, _ := ov[f].(map[string]any)
+		inner, _ := fo[f].(map[string]any)
+		osig, _ := inner["signature"].(map[string]any)
+		if osig == nil {
+			continue
+		}
+		top := subMap(subMap(m, f), "signature")
+		for k, v := range osig {
+			top[k] = v
+		}
+		delete(inner, "signature")
+		if len(inner) == 0 {
+			delete(fo, f)
+		}
+		if len(fo) == 0 {
+			delete(ov, f)
+		}
+	}
+	if ov != nil && len(ov) == 0 {
+		delete(m, "overrides")
+	}
+}
+
 func subMap(m map[string]any, key string) map[string]any {
 	if s, ok := m[key].(map[string]any); ok {
 		return s
@@ -65,6 +97,7 @@ func genInvalid(g *Rng, w *World, cfg map[string]any) []InvalidCase {
 	var out []InvalidCase
 	mk := func(class string, formats []string, patch func(m map[string]any)) {
 		m := cloneTree(cfg).(map[string]any)
+		normalizeSig(m)
 		patch(m)
 		out = append(out, InvalidCase{Class: class, Config: RenderConfig(m), Formats: formats})
 	}
@@ -105,6 +138,12 @@ func genInvalid(g *Rng, w *World, cfg map[string]any) []InvalidCase {
 		eachList(m, func(l []any) []any {
 			return append(l, map[string]any{"src": "@SRC@src/bin/app", "dst": "/usr/bin/collide"},
 				map[string]any{"src": "@SRC@src/bin/app", "dst": "/usr/bin/collide"})
+		})
+	})
+	mk("content.collision.flattened-basenames", all, func(m map[string]any) {
+		// one entry, destination ending in '/', two matches with the same base name
+		eachList(m, func(l []any) []any {
+			return append(l, map[string]any{"src": "@SRC@src/dup", "dst": "/usr/share/dup/"})
 		})
 	})
 	if contains(w.Signed, "deb") {
@@ -359,6 +398,30 @@ func (s *c06state) runVariant(v Variant) {
 			}
 			for _, k := range kinds {
 				c := Case{Format: v.Format, Class: "ref", Invalid: r.Kind, FS: &FSFault{Path: r.Path, Kind: k}}
+				s.checkFaulty(&c, s.rt.ExecCase(w, &c), &RefInfo{Trace: trace})
+			}
+			// permission denied: the file itself, the directory a glob reads,
+			// or a directory somewhere inside a tree
+			up := r.Path
+			if r.Kind == "tree" {
+				up = ""
+				for _, e := range w.Tree {
+					if e.Kind == "dir" && strings.HasPrefix(e.Path, r.Path+"/") {
+						nonEmpty := false
+						for _, f := range w.Tree {
+							if strings.HasPrefix(f.Path, e.Path+"/") {
+								nonEmpty = true
+							}
+						}
+						if nonEmpty {
+							up = e.Path
+							break
+						}
+					}
+				}
+			}
+			if up != "" && !strings.Contains(r.Path, "dlink") {
+				c := Case{Format: v.Format, Class: "ref", Invalid: r.Kind, FS: &FSFault{Path: up, Kind: "unreadable"}}
 				s.checkFaulty(&c, s.rt.ExecCase(w, &c), &RefInfo{Trace: trace})
 			}
 		}
